@@ -1352,6 +1352,34 @@ func runC15(cfg config) *hx.Report {
 			add(c15Case{Kind: "send-fuzz", Tag: "ack:" + tag, Resume: true, Items: items, SrcDir: dir, Manifest: mj, Ctl: b, Streams: 1 + rng.Intn(3)})
 		}
 	}
+	// --- sender: acknowledgement soups (oracle only): well-formed records in any order and
+	// multiplicity - repeated and stray FileDone / FileResumeInfo / credits - then the stream ends
+	for t := 0; t < 20*scale; t++ {
+		items := c15GenItems(rng, 1+rng.Intn(3))
+		dir, m, keys := mkSrc(items, 1000+t)
+		mj, _ := json.Marshal(m)
+		pool := append([]uint64{}, keys...)
+		pool = append(pool, 999, 0, keys[0]+1)
+		var recs []c15Rec
+		for n := 1 + rng.Intn(8); n > 0; n-- {
+			k := pool[rng.Intn(len(pool))]
+			reps := 1
+			if rng.Intn(3) == 0 {
+				reps = 2 + rng.Intn(3)
+			}
+			for ; reps > 0; reps-- {
+				switch rng.Intn(5) {
+				case 0, 1, 2:
+					recs = append(recs, c15Rec{"FileDone", c15Enc(transfer.FileDone{StreamID: k, OK: rng.Intn(4) != 0})})
+				case 3:
+					recs = append(recs, c15Rec{"FileResumeInfo", c15Enc(transfer.FileResumeInfo{FileID: "zz", StreamID: k, TotalChunks: 1, Bitmap: []byte{0}})})
+				default:
+					recs = append(recs, c15Rec{"CreditBatch", c15Enc(transfer.CreditBatch{Entries: []transfer.Credit{{StreamID: k, Credits: 1}}})})
+				}
+			}
+		}
+		add(c15Case{Kind: "send-fuzz", Tag: "ack-soup", Resume: rng.Bool(), Items: items, SrcDir: dir, Manifest: mj, Ctl: c15Cat(recs), Streams: 1 + rng.Intn(3)})
+	}
 	// --- legacy stream decoders (oracle only)
 	legacyFile := func(name string, data []byte) []byte {
 		var bb bytes.Buffer
